@@ -19,7 +19,7 @@
    changes, all other elements and their order stay"). *)
 From Coq Require Import List ZArith Bool Arith Lia.
 From SC Require Import Base.Res Base.PyList Inst.Heap Inst.ClassTable Inst.Model Inst.Canon Inst.Abs
-  Inst.SpecHelpers Inst.ElemProofs Inst.RefineProofs Inst.CopyProofs Inst.ElemRefine Inst.ElemRefine2 Inst.ElemRefine3 Inst.ElemRefine4 Inst.ElemRefine5 Inst.ElemRefineGuard.
+  Inst.SpecHelpers Inst.ElemProofs Inst.RefineProofs Inst.CopyProofs Inst.ElemRefine Inst.ElemRefine2 Inst.ElemRefine3 Inst.ElemRefine4 Inst.ElemRefine5 Inst.ElemRefine6 Inst.ElemRefineGuard.
 Import ListNotations.
 Open Scope nat_scope.
 
@@ -418,9 +418,10 @@ Qed.
    element type; proper_elems: no sentinel object inside the list; by_value_ok / set_key_free:
    see above.  refines_spec: the model run and spec_helper agree on the result state (the
    receiver itself is returned) and on the error class, and an error leaves the heap alone.
-   STILL MISSING for the full statement: copy-on-write calls (_inplace=False), item preparers,
-   keywords / spec elements, nested receivers, shared containers, update_/transform_<item> on
-   dicts and sets, container missing (created on the fly), classes with invalidated_by. *)
+   STILL MISSING for the full statement: item preparers, keywords / spec elements, nested
+   receivers, in-place calls on a shared container, update_/transform_<item> on dicts and sets
+   and without _inplace, container missing (created on the fly), classes with invalidated_by.
+   (The copy-on-write flag of with_/without_<item> is C06_elem_helpers_copy_refine_guarded_partial.) *)
 Theorem C06_elem_helpers_refine_guarded_partial : forall ct h0 s l a,
   (* lists *)
   (elem_guard ct s l a KList = true ->
@@ -518,6 +519,83 @@ Example C06_guard_examples :
   run (HWithoutItem 3) (mkh [VInt 1] true true VMissing false None None [] None) = SErr ValueErr.
 Proof. vm_compute. repeat split. Qed.
 
+(* THE COPY-ON-WRITE FLAG (Inst/ElemRefine6.v).  with_<item> / without_<item> called WITHOUT
+   _inplace on a flat receiver -- of a FROZEN class or not -- under the computable side
+   condition copy_guard (flat receiver that is not being initialised; class without
+   invalidated_by, do_not_copy and __post_copy__ hook; attribute a declared List / Dict / Set and
+   holding a list / dict / set of scalars, possibly shared with another attribute).
+   copy_refines_spec: the call returns a FRESH instance (a cell beyond the old heap), NO cell of
+   the old heap changes (receiver, its containers and everything else keep their content), and
+   the abstraction of the result is exactly what spec_helper computes from the abstraction of the
+   receiver; when the model raises, the specification demands that error class and the old heap
+   is equally untouched.  Arguments and addressing modes as for the in-place theorems. *)
+Theorem C06_elem_helpers_copy_refine_guarded_partial : forall ct h0 s l a,
+  (copy_guard ct s l a KList = true ->
+     (forall idx v ins, plain_items ct s l a = true -> vscalar v = true ->
+        (idx = VMissing \/ exists i, idx = VInt i) ->
+        copy_refines_spec ct h0 s l (HWithItem a) (mkh [v] false true idx ins None None [] None)
+                          (SWithItem a) (mkah [abs0 v] false true (abs0 idx) ins None None [] None)) /\
+     (forall voi bi, nonref voi = true ->
+        copy_refines_spec ct h0 s l (HWithoutItem a) (mkh [voi] false true VMissing false bi None [] None)
+                          (SWithoutItem a) (mkah [abs0 voi] false true AMissing false bi None [] None))) /\
+  (copy_guard ct s l a KDict = true ->
+     (forall key v, plain_items ct s l a = true -> nonref key = true -> vscalar v = true ->
+        copy_refines_spec ct h0 s l (HWithItem a) (mkh [key; v] false true VMissing false None None [] None)
+                          (SWithItem a) (mkah [abs0 key; abs0 v] false true AMissing false None None [] None)) /\
+     (forall key, nonref key = true ->
+        copy_refines_spec ct h0 s l (HWithoutItem a) (mkh [key] false true VMissing false None None [] None)
+                          (SWithoutItem a) (mkah [abs0 key] false true AMissing false None None [] None))) /\
+  (copy_guard ct s l a KSet = true ->
+     (forall v, plain_items ct s l a = true -> vscalar v = true ->
+        set_key_free ct (list_of s l a) v = true ->
+        copy_refines_spec ct h0 s l (HWithItem a) (mkh [v] false true VMissing false None None [] None)
+                          (SWithItem a) (mkah [abs0 v] false true AMissing false None None [] None)) /\
+     (forall voi, nonref voi = true ->
+        copy_refines_spec ct h0 s l (HWithoutItem a) (mkh [voi] false true VMissing false None None [] None)
+                          (SWithoutItem a) (mkah [abs0 voi] false true AMissing false None None [] None))).
+Proof.
+  intros ct h0 s l a. split; [|split]; intro G; split.
+  - intros idx v ins P Hv Hi. now apply with_item_list_copy_guarded.
+  - intros voi bi Hv. now apply without_item_list_copy_guarded.
+  - intros key v P Hk Hv. now apply with_item_dict_copy_guarded.
+  - intros key Hk. now apply without_item_dict_copy_guarded.
+  - intros v P Hv Hkf. now apply with_item_set_copy_guarded.
+  - intros voi Hv. now apply without_item_set_copy_guarded.
+Qed.
+
+(* non-vacuity of copy_guard: the receiver of C06_guard_examples with its class declared
+   FROZEN.  The copy-on-write calls return a new instance (cell 5) whose attribute holds the
+   edited container, cells 0..3 are as before; the in-place call is refused. *)
+Example C06_copy_guard_examples :
+  let old s' := firstn 4 (heap s') in
+  copy_guard ex_ct_frozen ex_state 0 1 KList = true /\ copy_guard ex_ct_frozen ex_state 0 2 KDict = true /\
+  copy_guard ex_ct_frozen ex_state 0 3 KSet = true /\
+  plain_items ex_ct_frozen ex_state 0 1 = true /\ elem_guard ex_ct_frozen ex_state 0 1 KList = false /\
+  (match run_helper ex_ct_frozen 0 (HWithoutItem 1) (mkh [VInt 0] false true VMissing false None None [] None) ex_state with
+   | (Ok (VRef r), s') => r = 5 /\ old s' = heap ex_state /\
+                          absv (heap s') (VRef r) =
+                          AInst 0 [(1, AList [AInt 1; AInt 1; AInt 0]); (2, ADict [(AStr 0, AInt 0); (AStr 7, AInt 1)]);
+                                   (3, ASet [AInt 0; AInt 2])]
+   | _ => False end) /\
+  (match run_helper ex_ct_frozen 0 (HWithItem 2) (mkh [VStr 8; VInt 3] false true VMissing false None None [] None) ex_state with
+   | (Ok (VRef r), s') => r = 5 /\ old s' = heap ex_state /\
+                          absv (heap s') (VRef r) =
+                          AInst 0 [(1, AList [AInt 1; AInt 0; AInt 1; AInt 0]);
+                                   (2, ADict [(AStr 0, AInt 0); (AStr 7, AInt 1); (AStr 8, AInt 3)]);
+                                   (3, ASet [AInt 0; AInt 2])]
+   | _ => False end) /\
+  (match run_helper ex_ct_frozen 0 (HWithItem 3) (mkh [VInt 1] false true VMissing false None None [] None) ex_state with
+   | (Ok (VRef r), s') => r = 5 /\ old s' = heap ex_state /\
+                          absv (heap s') (VRef r) =
+                          AInst 0 [(1, AList [AInt 1; AInt 0; AInt 1; AInt 0]); (2, ADict [(AStr 0, AInt 0); (AStr 7, AInt 1)]);
+                                   (3, ASet [AInt 0; AInt 1; AInt 2])]
+   | _ => False end) /\
+  fst (run_helper ex_ct_frozen 0 (HWithoutItem 2) (mkh [VStr 9] false true VMissing false None None [] None) ex_state)
+    = Err KeyErr /\
+  fst (run_helper ex_ct_frozen 0 (HWithoutItem 1) (mkh [VInt 0] true true VMissing false None None [] None) ex_state)
+    = Err FrozenErr.
+Proof. vm_compute. repeat split. Qed.
+
 (* WHY by_value_ok IS NEEDED — a finding.  xs : List[int] holding [1, 0, 1, 0];
    transform_<item>(True, lambda x: x): True has the element type, so the target is addressed
    BY VALUE; True == 1 finds position 0.  "Replace by transformed value" (spec_change_item)
@@ -572,5 +650,7 @@ Print Assumptions C06_set_with_item_refines_partial.
 Print Assumptions C06_set_without_item_refines_partial.
 Print Assumptions C06_elem_helpers_refine_guarded_partial.
 Print Assumptions C06_guard_examples.
+Print Assumptions C06_elem_helpers_copy_refine_guarded_partial.
+Print Assumptions C06_copy_guard_examples.
 Print Assumptions C06_by_value_transforms_argument_refuted.
 Print Assumptions C06_examples.
